@@ -81,6 +81,8 @@ def do_analysis_sweep(ex, idx, op):
     args = sweep_args(op, b, lexer_name)
     seen = set()
     n_done = 0
+    saved_budget = w.budget
+    w.budget = min(w.budget, 3_000_000)   # one small text: a fraction of a whole scan's budget
     for a in args:
         if kind == "misc":
             k2, a2 = MISC[a]
@@ -105,12 +107,13 @@ def do_analysis_sweep(ex, idx, op):
             ex.add(violation("C03", "analysis_total", "%s text of %s after %s(%s) -> %s %s %s" % (
                 lexer_name, cid, kind, a, obs["outcome"], obs.get("exc", ""), obs.get("msg", "")), idx, obs,
                 narrow={"args": [a]}, lexer=lexer_name))
-            if len(ex.viol) > 10:
+            if len(ex.viol) > 10 or sum(1 for v in ex.viol if v.get("outcome") == "hang") >= 2:
                 break
         else:
             ex.probe("c03_analyses_ok")
             if box["r"]:
                 ex.probe("c03_analyses_with_functions")
+    w.budget = saved_budget
     ex.subcases += n_done
     return {"outcome": "ok", "result": "%d analyses" % n_done}
 
